@@ -34,7 +34,8 @@ fn main() {
     let sub = a[1].clone();
     let r = util::guarded(|| dispatch(&sub, &a, &args));
     if let Err((loc, msg)) = r {
-        if loc.contains("/harness/src/") || loc.is_empty() { eprintln!("harness panic at {}: {}", loc, msg); std::process::exit(101); }
+        // the harness is compiled with relative paths (src/...), the library as a path dependency with absolute ones
+        if loc.contains("/harness/src/") || loc.starts_with("src/") || loc.is_empty() { eprintln!("harness panic at {}: {}", loc, msg); std::process::exit(101); }
         println!("UNGUARDED-LIBRARY-PANIC {} | {}", loc, msg);
         std::process::exit(3);
     }
